@@ -162,7 +162,8 @@ type config struct {
 	name      string
 	sk, ik    string // none | simple | <policy>:<cap>
 	shared    bool
-	sessCache string // "" or <policy>:<cap>
+	sessCache string        // "" or <policy>:<cap>
+	sessTTL   time.Duration // session cache expiry (0 = one hour); real time: pkg/cache has its own clock
 }
 
 const t0 = int64(1700000000)
@@ -196,6 +197,9 @@ func (w *world) policy() *appencryption.CryptoPolicy {
 		p.SessionCacheEvictionPolicy = pol
 		p.SessionCacheMaxSize = n
 		p.SessionCacheDuration = time.Hour
+		if w.cfg.sessTTL > 0 {
+			p.SessionCacheDuration = w.cfg.sessTTL
+		}
 	}
 	return p
 }
@@ -296,6 +300,10 @@ func churnOp(part, rec string) op {
 		_, err = s.Encrypt(context.Background(), []byte("x"))
 		return err
 	}}
+}
+
+func sleepOp(d time.Duration) op {
+	return op{"sleep", func(w *world) error { time.Sleep(d); return nil }}
 }
 
 // closeOp: a holder closes its handle (then yields briefly so that a waiting remover can run)
@@ -436,6 +444,11 @@ func scenarios() []scenario {
 			[]op{other(encOp("o", "p0", "x0")), other(encOp("o", "p1", "x1")), other(encOp("o", "p2", "x2")), other(encOp("o", "p3", "x3")),
 				churnOp("p0", "x0"), churnOp("p1", "x1"), churnOp("p0", "x0"), churnOp("p1", "x1"), churnOp("p0", "x0")},
 			churnOp("p2", "x2"), churnOp("p3", "x3")})
+		// cached sessions that EXPIRE (real time): the next Get of the partition drops the expired entry,
+		// which must be torn down like an evicted one (else its keys stay locked in memory for good)
+		out = append(out, scenario{"sesscache-expiry-" + sc2, config{sk: "simple", ik: "simple", sessCache: sc2, sessTTL: 15 * time.Millisecond},
+			[]op{other(encOp("o", "p0", "x0")), other(encOp("o", "p1", "x1")), churnOp("p0", "x0"), churnOp("p1", "x1"), sleepOp(25 * time.Millisecond)},
+			churnOp("p0", "x0"), churnOp("p1", "x1")})
 		out = append(out, scenario{"sesscache-churn-" + sc, config{sk: "simple", ik: "simple", sessCache: sc},
 			[]op{other(encOp("o", "p0", "x0")), other(encOp("o", "p1", "x1"))},
 			churnOp("p0", "x0"), churnOp("p1", "x1")})
